@@ -9,11 +9,17 @@
               asan variant (swept chunks poisoned): output must equal the unforced run.
               Dense streams (a collection before every / every 2nd allocation of the program itself): harness/c02_prims.scm,
               c02_arith.scm (arithmetic opcodes on operands that exist only on the VM stack), corpus/C02/dense-*.scm, c02_libs.scm,
-              c02_libs2.scm (compiled libraries, schedule started after the imports), c02_threads.scm (green threads),
+              c02_libs2.scm (compiled libraries, schedule started after the imports), c02_callbacks.scm (library C code that calls back
+              into Scheme: user hash / equality procedures of SRFI 69 incl. the resize, comparators of SRFI 95), c02_threads.scm (green threads),
               c02_errors.scm (primitive-error paths: every sexp_raise of vm.c inside guard / handlers / dynamic-wind / parameterize).
    (G, static) gen/c02_vmtop.py -> coq/Gen/C02_VmTop.v: the opcode switch of sexp_apply as an item table; checker + soundness proof in
               coq/C02/VmTop.v (no lost and no stale VM-stack root at any allocating call).
-              gen/c02_gcvars.py: sexp_gc_var discipline of C locals from the clang AST (search aid + triaged allow-list)."""
+              gen/c02_gcvars.py: sexp_gc_var discipline of C locals from the clang AST (search aid + triaged allow-list).
+   (G + K-inner, round 4) gen/c02_gcmacros.py -> coq/Gen/C02_GcMacros.v: the sexp_gc_var<K> / sexp_gc_preserve<K> / sexp_gc_release<K>
+              families of sexp.h expanded by the preprocessor; proved (coq/C02/GcMacrosCheck.v) to register exactly their K arguments and
+              to release exactly K; use sites scanned; the extracted model's prediction is compared with the COMPILED macros around a
+              real sexp_gc (harness/embed_c02.c mode gcmacros).  harness/c02_karat.scm: the only user of arity 7 (Karatsuba branch of
+              sexp_bignum_mul) under dense schedules."""
 import os, subprocess, hashlib, re
 from vlib import build as B
 
@@ -566,13 +572,15 @@ def outer(ctx, da, nprog, nsnip, nsched, dense):
     return nruns
 
 
-def outer_dense(ctx, da, scheds, extra_progs):
+def outer_dense(ctx, da, scheds, extra_progs, karat_scheds=None):
     """dense schedules: the embedding harness numbers allocations from the end of the standard
     environment load, so a collection can be forced before every allocation of the program itself"""
     emb = B.cc_embed(da, HARNESS, os.path.join(da, "embed_c02"))
     work = os.path.join(B.SCRATCH, "tmp_c02_work")
     os.makedirs(work, exist_ok=True)
     progs = [os.path.join(HERE, "..", "harness", "c02_prims.scm"), os.path.join(HERE, "..", "harness", "c02_arith.scm")]
+    karat = os.path.join(HERE, "..", "harness", "c02_karat.scm")
+    progs.append(karat)
     if os.path.isdir(CORPUS):
         progs += [os.path.join(CORPUS, f) for f in sorted(os.listdir(CORPUS)) if f.startswith("dense") and f.endswith(".scm")]
     for k, text in enumerate(extra_progs):
@@ -580,20 +588,35 @@ def outer_dense(ctx, da, scheds, extra_progs):
         open(pth, "w").write(text)
         progs.append(pth)
     n = 0
+    thorough = ctx.thorough
+
+    def go_src(src, sched):
+        env = B.chibi_env(da, {"CHIBI_VERIF_GC": sched, "CHIBI_VERIF_AUDIT": "1" if (sched.startswith("seed") or thorough) else "0", "C02_NO_BOOT_GC": "1"} if sched else {"C02_NO_BOOT_GC": "1"})
+        try:
+            r = subprocess.run([emb, src, "/dev/null"], capture_output=True, text=True, env=env, timeout=1500)
+            return r.returncode, r.stdout, r.stderr
+        except subprocess.TimeoutExpired:
+            return "TIMEOUT", "", ""
+    # the Karatsuba stream (harness/c02_karat.scm) runs in a background thread next to the other dense runs, so that the
+    # quick tier's wall time stays where it was; its results are judged below like everybody else's (main thread only)
+    kscheds = list(karat_scheds) if karat_scheds else (["every:1", "every:2", "every:3", "seed:%d:5" % ctx.rng.randrange(1, 1000)] if thorough else ["every:3"])
+    import concurrent.futures
+    pool = concurrent.futures.ThreadPoolExecutor(max_workers=1)
+    kfut = pool.submit(lambda: [go_src(karat, None)] + [go_src(karat, s) for s in kscheds])
     for src in progs:
-        def go(sched):
-            env = B.chibi_env(da, {"CHIBI_VERIF_GC": sched, "CHIBI_VERIF_AUDIT": "1" if (sched.startswith("seed") or ctx.thorough) else "0", "C02_NO_BOOT_GC": "1"} if sched else {"C02_NO_BOOT_GC": "1"})
-            try:
-                r = subprocess.run([emb, src, "/dev/null"], capture_output=True, text=True, env=env, timeout=1500)
-                return r.returncode, r.stdout, r.stderr
-            except subprocess.TimeoutExpired:
-                return "TIMEOUT", "", ""
-        rc0, out0, err0 = go(None)
+        go = lambda sched, src=src: go_src(src, sched)
+        if src == karat:
+            kres = kfut.result()
+            rc0, out0, err0 = kres[0]
+            todo = list(zip(kscheds, kres[1:]))
+        else:
+            rc0, out0, err0 = go(None)
+            todo = None
         if rc0 != 0:
             ctx.broken("outer:baseline", "program %s fails without any forced collection: rc=%s %s" % (src, rc0, err0[-300:]))
             continue
-        for s in (scheds if (ctx.thorough or not src.endswith("c02_arith.scm")) else [x for x in scheds if x == "every:2" or x.startswith("seed")]):
-            rc, out, err = go(s)
+        for s in ([x[0] for x in todo] if todo is not None else scheds if (ctx.thorough or not src.endswith("c02_arith.scm")) else [x for x in scheds if x == "every:2" or x.startswith("seed")]):
+            rc, out, err = dict(todo)[s] if todo is not None else go(s)
             if rc == "TIMEOUT":
                 ctx.note("dense run %s under %s timed out (inconclusive)" % (os.path.basename(src), s))
                 continue
@@ -617,10 +640,28 @@ def outer_dense(ctx, da, scheds, extra_progs):
                     i = next((i for i, (x, y) in enumerate(zip(l0, l1)) if x != y), min(len(l0), len(l1)))
                     sig, obs = "schedule:output-differs", "first differing output line %d: %r vs unforced %r" % (i, l1[i:i + 1], l0[i:i + 1])
                 ctx.violation(sig, input="%s under CHIBI_VERIF_GC=%s (embedding harness)" % (src, s), expected="same output and exit status as the unforced run", observed=obs, replay=replay)
+    pool.shutdown(wait=True)
     return n
 
 
-def outer_libs(ctx, da, scheds, srcname="c02_libs.scm", tag="libs", more_env=None):
+class Deferred:
+    """records the reporting calls of a stream that runs in a background thread; flush() replays them on the real ctx
+    (main thread), in order -- so the evidence is the same as if the stream had run inline"""
+    def __init__(self, ctx):
+        self.calls, self.thorough = [], ctx.thorough
+
+    def __getattr__(self, name):
+        if name.startswith("__"):
+            raise AttributeError(name)
+        return lambda *a, **k: self.calls.append((name, a, k))
+
+    def flush(self, ctx):
+        for name, a, k in self.calls:
+            getattr(ctx, name)(*a, **k)
+        self.calls = []
+
+
+def outer_libs(ctx, da, scheds, srcname="c02_libs.scm", tag="libs", more_env=None, embname="embed_c02"):
     """(with srcname=c02_threads.scm, tag=threads: the same over GREEN-THREAD programs -- thread creation, join results,
     mutex / condition-variable queues with values in flight, thread-specific slots, per-thread parameterize, exceptions
     through join, anonymous / blocked / terminated threads -- run on the virtual clock with injected time slices;
@@ -636,7 +677,7 @@ def outer_libs(ctx, da, scheds, srcname="c02_libs.scm", tag="libs", more_env=Non
     if not supported:
         ctx.note("dense schedules over library code skipped: the tree has no CHIBI_VERIF_GC_START hook (fixes/hook-C02-gc-start.patch not applied)")
         return 0
-    emb = B.cc_embed(da, HARNESS, os.path.join(da, "embed_c02"))
+    emb = B.cc_embed(da, HARNESS, os.path.join(da, embname))
     work = os.path.join(B.SCRATCH, "tmp_c02_work")
     os.makedirs(work, exist_ok=True)
     src = os.path.abspath(os.path.join(HERE, "..", "harness", srcname))
@@ -799,6 +840,114 @@ def outer_errors(ctx, da, ntests, scheds):
     return n
 
 
+def gcmacros_static(ctx, d):
+    """(G) regenerate the macro table, report a wrong arity / a wrong use site by name; returns the translator's facts or None"""
+    from gen import c02_gcmacros
+    work = os.path.join(B.SCRATCH, "tmp_c02_work")
+    os.makedirs(work, exist_ok=True)
+    try:
+        gm = c02_gcmacros.regen(ctx, d, work)
+    except Exception as e:
+        ctx.broken("gen:C02_GcMacros", "gc macro translator failed closed: %s" % e)
+        return None
+    ctx.cov["gc_macro_arities"] = len(gm["arities"])
+    ctx.cov["gc_macro_use_sites"] = gm["uses"]
+    ctx.cov["gc_macro_uses_per_arity"] = {str(k): v for k, v in sorted(gm["uses_per_arity"].items())}
+    gm["bad_arities"] = []
+    for row in gm["table"]:
+        why = c02_gcmacros.py_check(row)
+        if why:
+            gm["bad_arities"].append(row["k"])
+            ctx.broken("gcmacros:arity-%d" % row["k"], "include/chibi/sexp.h: " + why)
+    for (f, line, why) in gm["bad_use_sites"][:12]:
+        ctx.broken("gcmacros:use-site:%s:%d" % (f, line), "%s:%d: %s" % (f, line, why))
+    return gm
+
+
+def gcmacros_inner(ctx, d, exe, gm):
+    """(K-inner) the extracted model on the regenerated table vs the COMPILED macros around a real sexp_gc"""
+    emb = B.cc_embed(d, HARNESS, os.path.join(d, "embed_c02"))
+    # sexp_preserve_object / sexp_release_object: generated call sequences (ids 1..5 so that duplicates, releases of the head, of a
+    # middle cell, of the last cell, of an absent object and of an object registered twice all occur)
+    seqs = ["p1,p2,p1,p3,r1,r2,r7", "r1", "p1,r1,r1", "p1,p2,p3,r3", "p1,p2,p3,r1", "p1,p2,p3,r2", "p2,p2,p2,r2,p1,r2"]
+    for _ in range(40 if ctx.thorough else 10):
+        seqs.append(",".join(ctx.rng.choice("pppr") + str(ctx.rng.randrange(1, 6)) for _ in range(ctx.rng.randrange(2, 14))))
+    answers = ctx.run_model(exe, ["gcmacros"] + ["pres " + s for s in seqs])
+    ans, pres_model = answers[0], answers[1:]
+    replay = "LD_LIBRARY_PATH=%s CHIBI_MODULE_PATH=%s/lib %s /dev/null /dev/null gcmacros '%s'" % (d, d, emb, ";".join(seqs))
+    try:
+        r = subprocess.run([emb, "/dev/null", "/dev/null", "gcmacros", ";".join(seqs)], capture_output=True, text=True, env=B.chibi_env(d), timeout=90)
+        rc, outp, errp = r.returncode, r.stdout, r.stderr
+    except subprocess.TimeoutExpired as e:      # a cyclic saves list makes the marker loop for ever: keep the lines printed so far
+        so = e.stdout or ""
+        rc, outp, errp = "TIMEOUT", (so.decode(errors="replace") if isinstance(so, bytes) else so), "timeout after 90 s (the collector does not return)"
+    impl = {}
+    for m in re.finditer(r"^G (\d+) chain=(\S+) intact=(\d+) release=(\d)$", outp, re.M):
+        impl[int(m.group(1))] = (m.group(2), m.group(3), m.group(4))
+    inits = {int(m.group(1)): m.group(2) for m in re.finditer(r"^I (\d+) init=(\d+)$", outp, re.M)}
+    if not ans.startswith("OK "):
+        ctx.broken("inner-correspondence:gcmacros", "model: " + ans[:200])
+        return 0
+    model = {}
+    for part in ans[3:].split(";"):
+        k, ch, rel = part.split(":")
+        model[int(k)] = (ch, rel)
+    n = 0
+    for k in range(1, 8):
+        want = (",".join(str(i) for i in range(k, -1, -1)), "1" * k, "1")
+        got = impl.get(k)
+        if got is None and rc != 0:
+            continue            # the harness died before this arity (reported once below, or through the arity that killed it)
+        n += 1
+        ctx.count(1, key=("gcmacros", k), nontrivial=k >= 2)
+        ctx.cov["traces_validated_against_impl"] += 1
+        if k in inits and inits[k] != "1" * k:
+            ctx.violation("gcmacros:arity-%d:uninitialised-variable" % k,
+                          input="sexp_gc_var%d(...) at the top of a C function entered with pointer-like junk on the stack" % k,
+                          expected="I %d init=%s (every declared variable holds the immediate SEXP_VOID until it is assigned, so a collection before the assignment follows nothing)" % (k, "1" * k),
+                          observed="I %d init=%s" % (k, inits[k]), replay=replay)
+        if got != want:
+            # oracle = the SPEC: exactly the K arguments are visited by the marker, each object survives, release restores the caller's list
+            lost = [i + 1 for i, c in enumerate((got or ("", "", ""))[1]) if c == "0"]
+            ctx.violation("gcmacros:arity-%d:%s" % (k, "variable-swept" if lost else ("no-output" if got is None else "chain-or-release")),
+                          input="sexp_gc_var%d / sexp_gc_preserve%d / sexp_gc_release%d (as compiled from the tree's sexp.h) around sexp_gc(ctx, NULL); %d fresh strings held only by the %d registered locals" % (k, k, k, k, k),
+                          expected="G %d chain=%s intact=%s release=%s" % ((k,) + want),
+                          observed=("G %d chain=%s intact=%s release=%s" % ((k,) + got) + (" (the object held by variable %s was swept)" % lost if lost else "")) if got else "rc=%s %s" % (rc, errp[-300:]),
+                          replay=replay)
+        elif model.get(k) != (want[0], want[2]):
+            ctx.broken("inner-correspondence:gcmacros", "arity %d: the compiled macros behave as specified (%s) but the extracted model on the regenerated table gives chain=%s release=%s" % ((k, got) + model.get(k, ("?", "?"))), replay=replay)
+    # ---- sexp_preserve_object / sexp_release_object: compiled functions vs the extracted run_ops; oracle = multiset spec in python
+    pl = dict((m.group(1), m.group(2)) for m in re.finditer(r"^P (\S+) list=(\S*)$", outp, re.M))
+    for s, ma in zip(seqs, pres_model):
+        spec = []
+        for op in s.split(","):
+            if op[0] == "p":
+                spec.insert(0, op[1:])
+            elif op[1:] in spec:
+                spec.remove(op[1:])            # first = most recent registration
+        got = pl.get(s)
+        if got is None and rc != 0:
+            continue            # the harness died before it got here: reported once below
+        n += 1
+        ctx.count(1, key=("preservatives", s), nontrivial=("r" in s and "p" in s))
+        ctx.cov["traces_validated_against_impl"] += 1
+        if got != ",".join(spec):
+            ctx.violation("preserve-object:list-differs", input="sexp_preserve_object / sexp_release_object calls %s on an empty preservatives list (ids = distinct live objects)" % s,
+                          expected="list (head first) = %s: every release removes exactly one registration of its object, the most recent, and nothing else" % (",".join(spec) or "empty"),
+                          observed="list = %s" % got, replay=replay)
+        elif ma != "OK " + ",".join(spec):
+            ctx.broken("inner-correspondence:preservatives", "calls %s: the compiled functions leave %s as specified but the extracted model answers %s" % (s, got, ma), replay=replay)
+    mq = re.search(r"^Q intact=(\d+) after=(\d+) list=(\d+)$", outp, re.M)
+    if rc == 0 and (not mq or mq.group(1) != "111" or mq.group(2)[0] != "1" or mq.group(2)[2] != "1" or mq.group(3) != "2"):
+        ctx.violation("preserve-object:not-kept", input="three fresh strings held only through sexp_preserve_object, sexp_gc, sexp_release_object of the middle one, sexp_gc",
+                      expected="Q intact=111 after=101 list=2", observed=mq.group(0) if mq else "no Q line", replay=replay)
+    if rc != 0 and not ctx.violations:
+        ctx.violation("gcmacros:harness-died", input="sexp_gc_var<K> / sexp_gc_preserve<K> / sexp_gc_release<K> for K = 1..7 around sexp_gc(ctx, NULL) (embed_c02 gcmacros)",
+                      expected="exit 0 and one G line per arity", observed="rc=%s after %d of 7 arities; last lines: %r %s" % (rc, len(impl), outp.strip().split("\n")[-2:], errp[-300:]), replay=replay)
+    ctx.sample(dict(kind="gcmacros", model=ans[3:], compiled={str(k): v for k, v in sorted(impl.items())}))
+    return n
+
+
 # warnings of gen/c02_gcvars.py on /repo HEAD that were read and judged harmless: (function, variable, kind) -> reason
 GCVARS_TRIAGED = {
     ("sexp_flatten_dot", "(nested result)", "N"): "sexp_nreverse_op allocates only its type-error exception; the argument is a list here",
@@ -814,6 +963,45 @@ GCVARS_TRIAGED = {
 }
 
 
+def build_watched(ctx, variant, limit=300):
+    """ctx.build with a watchdog: a breaking change can make the freshly built chibi-scheme loop for ever inside the repository's own
+    `make` (e.g. a release macro that leaves a record of a dead frame on the saves list makes the list cyclic and the marker never
+    returns).  vlib/build.py has no timeout, so a chibi-scheme process OF THIS SCRATCH BUILD that has been running for more than
+    `limit` seconds (a normal one takes a few seconds) is killed by PID; make then fails and the partial-build fallback turns the
+    breakage into a concrete failing input."""
+    import threading, time, signal
+    d = os.path.join(B.SCRATCH, "%s-%s" % (variant, B.source_hash()))
+    exe = os.path.join(d, "chibi-scheme")
+    done, seen, killed = threading.Event(), {}, []
+
+    def dog():
+        while not done.wait(15):
+            now = time.time()
+            for pid in os.listdir("/proc"):
+                if not pid.isdigit():
+                    continue
+                try:
+                    if os.readlink("/proc/%s/exe" % pid) != exe:
+                        continue
+                except OSError:
+                    continue
+                seen.setdefault(pid, now)
+                if now - seen[pid] > limit:
+                    try:
+                        os.kill(int(pid), signal.SIGKILL)
+                        killed.append(pid)
+                    except OSError:
+                        pass
+    th = threading.Thread(target=dog, daemon=True)
+    th.start()
+    try:
+        return ctx.build(variant)
+    finally:
+        done.set()
+        if killed:
+            ctx.note("build watchdog: %d chibi-scheme process(es) of the scratch build ran for more than %d s inside make and were killed" % (len(killed), limit))
+
+
 def run(ctx):
     ctx.cov["rule"] = ("inner: one case = one collection (real sexp_mark + sexp_sweep) inside a generated workload (random mix of 20 snippets: deep "
                        "recursion, closures, vectors with trailing duplicates/immediates, call/cc + dynamic-wind, hash tables, bignums, ports, records "
@@ -823,7 +1011,7 @@ def run(ctx):
                        "every n-th) under ASan with poisoned free chunks; output compared with the unforced run")
     partial = False
     try:
-        d = ctx.build("default")
+        d = build_watched(ctx, "default")
     except B.BuildError:
         # the tree no longer builds to the end (typically: the freshly built chibi-scheme crashes while
         # the Makefile runs it).  If the core library exists, still run the inner correspondence on
@@ -881,6 +1069,9 @@ def run(ctx):
         ctx.trust("gen/c02_gcvars.py is a search aid used as an obligation through a triaged allow-list (props/C02.py GCVARS_TRIAGED: %d entries, each with the reason why the flagged value is an immediate, rooted elsewhere, or only reachable on an error path that was tried); it does not see roots held through other objects nor freshness of results" % len(GCVARS_TRIAGED))
     except Exception as e:
         ctx.broken("gen:C02_gcvars", "gc-var discipline analysis failed closed: %s" % e)
+    gm = gcmacros_static(ctx, d)
+    if gm is None:
+        return
     okc = ctx.coq_obligations("Properties_C02")     # a failing layout obligation also shows up as a mark/oracle disagreement in inner()
     if okc and ctx.thorough:
         coqdir = os.path.join(HERE, "..", "coq")
@@ -900,6 +1091,10 @@ def run(ctx):
         ni, si, no, so, ns, dense = 2, 4, 3, 4, 3, None
     import time
     t0 = time.time()
+    ng = gcmacros_inner(ctx, d, exe, gm)
+    if partial and ctx.violations:
+        return          # the tree does not build to the end and a concrete failing input is already on record
+    ctx.note("gc macro families: %d arities regenerated, %d use sites scanned, %d arities run compiled around a real collection" % (len(gm["arities"]), gm["uses"], ng))
     nc = inner(ctx, d, exe, facts, ni, si, only_noimport=partial)
     nh = 0 if partial else inner_hook(ctx, d, exe, 8 if ctx.thorough else 2)
     t1 = time.time()
@@ -908,6 +1103,23 @@ def run(ctx):
         return
     da = ctx.build("asan")
     t2 = time.time()
+    # C code of the compiled libraries that calls back into Scheme (user hash / equality procedures of SRFI 69 incl. the resize,
+    # allocating comparators / key procedures of SRFI 95): harness/c02_callbacks.scm, in a background thread (own harness binary)
+    if ctx.thorough:
+        cscheds = [("every:1", False), ("every:2", True), ("every:%d" % ctx.rng.choice([3, 5, 7]), False), ("seed:%d:11" % ctx.rng.randrange(1, 1000), True)]
+    else:
+        cscheds = [("every:%d" % ctx.rng.choice([13, 17, 19]), False)]
+    cb_ctx = Deferred(ctx)
+    import threading
+    cb_out = []
+
+    def cb_run():
+        try:
+            cb_out.append(outer_libs(cb_ctx, da, cscheds, srcname="c02_callbacks.scm", tag="callbacks", embname="embed_c02_cb"))
+        except Exception as e:
+            cb_ctx.broken("outer:callbacks", "stream harness/c02_callbacks.scm failed: %s" % e)
+    cb_thread = threading.Thread(target=cb_run)
+    cb_thread.start()
     nr = outer(ctx, da, no, so, ns, dense)
     t3 = time.time()
     if ctx.thorough:
@@ -915,7 +1127,8 @@ def run(ctx):
     else:
         k0 = ctx.rng.randrange(1, 12000)
         dscheds = ["every:2", "every:%d" % ctx.rng.choice([5, 6, 7]), "seed:%d:9" % ctx.rng.randrange(1, 1000), "at:" + ",".join(str(k0 + i) for i in range(64))]
-    nd = outer_dense(ctx, da, dscheds, [])
+    # a wrong macro arity (static) -> targeted search: the Karatsuba stream (only user of arity 7) under every:1 as well
+    nd = outer_dense(ctx, da, dscheds, [], karat_scheds=(["every:1", "every:3"] if (gm["bad_arities"] and not ctx.thorough) else None))
     t4 = time.time()
     if ctx.thorough:
         lscheds = [("every:11", False), ("seed:%d:17" % ctx.rng.randrange(1, 1000), False), ("every:29", True)]
@@ -927,6 +1140,9 @@ def run(ctx):
     else:
         l2 = [("every:%d" % ctx.rng.choice([307, 311, 331]), False)]
     nl += outer_libs(ctx, da, l2, srcname="c02_libs2.scm", tag="libs2")
+    cb_thread.join()
+    cb_ctx.flush(ctx)
+    nl += sum(cb_out)
     t5 = time.time()
     rs = lambda: ctx.rng.randrange(1, 100000)
     if ctx.thorough:
@@ -946,7 +1162,9 @@ def run(ctx):
         nc, t1 - t0, t2 - t1, nr, t3 - t2, nd, t4 - t3, nl, t5 - t4))
     _tiny_heap_probe(ctx, da)
     ctx.assume("weak references, ephemerons and finalizers are outside this model (C16); the free list and heap shape are C10's")
-    ctx.assume("the root-registration discipline of C callers (sexp_gc_preserve) is not a theorem: it is explored by the forced-collection schedules only")
+    ctx.assume("the root-registration discipline of C callers (which locals a function must register, and that it releases on every path) is not a theorem: "
+               "the macro families themselves are (gc_macros_register_exactly_their_arguments), their use sites are scanned for matching arity and argument lists, "
+               "gen/c02_gcvars.py searches for unregistered fresh locals, and the rest is explored by the forced-collection schedules")
     ctx.assume("the mark stack (1024 inline entries, then malloc without a NULL check, gc.c:238) is an unbounded list in the model")
     ctx.trust("harness/embed_c02.c re-implements the body of sexp_gc (mark, weak reset, finalize, sweep) around the dumps; the heap walk it uses is the one of sexp_sweep")
 
